@@ -141,3 +141,133 @@ CHECKS["C02"] = {
 }
 CHECKS["C05"]["harnesses"].append(H_AE_LOG)
 CHECKS["C05"]["assumptions"] += AE_ASSUME
+
+# ---- second batch of harness descriptors ----
+H_REPL = {"fn": "vh_replicate_step", "what": "one AppendEntries round of replicateTo on an arbitrary leader (log/snapshot shapes in a window) with an arbitrary follower response or RPC error",
+          "bounds": "window W=3, MaxAppendEntries in {1,2}, nextIndex anywhere in [base, last+1]",
+          "covers": ["repl.success", "repl.rejected", "repl.stale-term", "repl.rpc-error", "repl.needs-snapshot", "repl.prev-is-snapshot"]}
+H_LEASE = {"fn": "vh_lease_step", "what": "one checkLeaderLease on an arbitrary leader: arbitrary suffrages, arbitrary last-contact instants, arbitrary lease >= 5ms, symbolic clock",
+           "bounds_quick": "N<=3 servers", "bounds_thorough": "N<=4", "covers": ["lease.stepdown", "lease.stay"],
+           "opts": {"timeout_ms": 4000}}
+H_VERIFY = {"fn": "vh_verify_count", "what": "verifyLeader + acknowledgements (success / failure / silence per peer) + the verify case of leaderLoop",
+            "bounds_quick": "N<=3 servers of symbolic suffrage", "bounds_thorough": "N<=4",
+            "covers": ["verify.success", "verify.failed", "verify.pending", "verify.immediate"]}
+H_COMPACT = {"fn": "vh_compact_arith", "what": "compactLogsWithTrailing(snapIdx, lastLogIdx, trailing) with arbitrary 64-bit arguments on an arbitrary store; store calls may fail",
+             "bounds": "full 64-bit arithmetic (no < 2^62 assumption on the arguments), store window W=3", "covers": ["compact.deleted", "compact.nothing", "compact.error"]}
+H_REMOVEOLD = {"fn": "vh_remove_old_logs", "what": "removeOldLogs deletes exactly [first,last]", "bounds": "W=3", "covers": ["removeold.deleted"]}
+H_BACKOFF = {"fn": "vh_backoff", "what": "backoff / cappedExponentialBackoff for arbitrary round, limit<=16", "bounds": "unwinding 20 (derived: power <= limit <= 16)",
+             "opts": {"unwind": 24}, "covers": ["backoff.end"]}
+H_DISPATCH = {"fn": "vh_dispatch", "what": "dispatchLogs with 1-2 futures on an arbitrary leader; StoreLogs may fail", "bounds": "W=3", "covers": ["dispatch.stored", "dispatch.store-failed"]}
+H_FSM = {"fn": "vh_fsm_pairing", "what": "runFSM serving one batch (Command/Barrier/Configuration tuples, with/without futures) on plain, batching and configuration-store FSMs",
+         "bounds_quick": "batch of <=2 tuples", "bounds_thorough": "<=3 tuples", "covers": ["fsm.future-command", "fsm.future-barrier"], "covers_only": False}
+H_LCOMMIT = {"fn": "vh_leader_commit", "what": "the commit case of leaderLoop (one iteration) with 0-2 in-flight futures and an uncommitted or committed latest configuration",
+             "bounds_quick": "W=2", "bounds_thorough": "W=3", "covers": ["commit.future-committed", "commit.future-stays", "commit.config-committed", "commit.leader-removed"],
+             "thorough": {"max_paths": 300000}}
+H_LAPPLY = {"fn": "vh_leader_apply", "what": "the applyCh case of leaderLoop with 1-2 queued futures, with and without a leadership transfer in progress", "bounds": "W=3",
+            "covers": ["apply.dispatched", "apply.refused"]}
+H_GATE = {"fn": "vh_gate", "what": "a membership request offered to leaderLoop: consumed only when latest==committed and an own-term entry is committed; then appendConfigurationEntry",
+          "bounds": "N=2 servers, W=3, arbitrary request", "covers": ["gate.open", "gate.closed", "gate.transfer", "gate.rejected", "gate.appended"]}
+H_INSTALL = {"fn": "vh_install_snapshot", "what": "installSnapshot (FSM goroutine running) on arbitrary follower log shapes, gap-tolerant and monotonic stores, snapshot index anywhere in the sender's log",
+             "bounds_quick": "W=2", "bounds_thorough": "W=3", "covers": ["install.success"]}
+H_INSTALL_F = {"fn": "vh_install_faults", "what": "installSnapshot with every snapshot-store / copy / FSM.Restore fault and every term relation", "bounds": "W=1",
+               "covers": ["install.success", "install.failed", "install.stale-term"]}
+H_CAND = {"fn": "vh_candidate", "what": "runCandidate + preElectSelf/electSelf to the first park with arbitrary per-peer (term, granted, error) answers; pre-vote on/off; transfer flag; stable faults for N=1",
+          "bounds_quick": "N<=2 servers of symbolic suffrage, self in or out of the configuration", "bounds_thorough": "N<=3", "allow": ["PANIC"],
+          "covers": ["candidate.won", "candidate.prevote-lost", "candidate.prevote-higher-term"], "thorough": {"max_paths": 400000, "max_seconds": 3000}}
+H_SETUP = {"fn": "vh_setup_leader", "what": "setupLeaderState on an arbitrary server", "bounds": "N<=3", "covers": ["setup.end"]}
+
+D3_NOTE = "installSnapshot obligations are split by the known-finding cause D3 (follower log lacks the snapshot's last entry, or monotonic store wiped with the cached last-log position kept)"
+
+CHECKS["C01"]["harnesses"] += [H_CAND, H_REPL, H_INSTALL_F]
+CHECKS["C06"]["harnesses"] += [H_CAND]
+CHECKS["C14"]["harnesses"] += [H_CAND]
+CHECKS["C03"]["harnesses"] += [H_DISPATCH, H_SETUP]
+CHECKS["C04"]["harnesses"] += [H_REPL, H_INSTALL]
+CHECKS["C04"]["assumptions"] = CHECKS["C04"]["assumptions"] + [D3_NOTE]
+CHECKS["C02"]["harnesses"] += [H_FSM, H_LCOMMIT, H_INSTALL, H_INSTALL_F]
+CHECKS["C02"]["assumptions"] = CHECKS["C02"]["assumptions"] + [D3_NOTE]
+CHECKS["C05"]["harnesses"] += [H_REPL, H_DISPATCH, H_LCOMMIT, H_SETUP]
+CHECKS["C07"]["harnesses"] += [H_GATE, H_LCOMMIT, H_CAND]
+
+CHECKS["C08"] = {
+    "only": ["C08."],
+    "explanation": "C08: the leader-side path of an Apply: dispatchLogs assigns consecutive indexes in the current term, one StoreLogs, futures in flight in index order, failure answers every future; the applyCh case refuses during transfer without storing; the commit case hands exactly the committed futures to the FSM with their own log; runFSM pairs each future with the FSM's response for that very entry.",
+    "outside": "real-time order between client goroutines; ErrLeadershipLost/store errors are indeterminate by the API's documentation",
+    "assumptions": [],
+    "harnesses": [H_DISPATCH, H_LAPPLY, H_LCOMMIT, H_FSM, H_SETUP],
+}
+CHECKS["C09"] = {
+    "only": ["C09."],
+    "explanation": "C09: verifyLeader/notifyAll/vote and the verify case of leaderLoop with every pattern of success/failure/silence per peer: success only with a majority of voters (self included); a negative acknowledgement before the quorum fails the future and steps down; an AppendEntries acknowledgement is never produced for a superseded term.",
+    "outside": "freshness against a heartbeat already in flight when VerifyLeader was called (goroutine interleaving, D10); a non-voting leader counting itself",
+    "assumptions": ["each peer acknowledges at most once per verification round in vh_verify_count (repeat acknowledgements are covered by vh_verify_repeat)"],
+    "harnesses": [H_VERIFY, H_AE_TERM, H_REPL],
+}
+CHECKS["C11"] = {
+    "only": ["C11."],
+    "explanation": "C11: compaction arithmetic for arbitrary 64-bit arguments (only [first, min(snapIdx, last-trailing)] is deleted, no underflow, entries above the snapshot and the newest TrailingLogs survive), removeOldLogs, and the ordering/atomicity of installSnapshot (durable sink before Restore before lastSnapshot moves; failures change nothing).",
+    "outside": "snapshot bytes (io.Copy is a stub moving a byte count); takeSnapshot session; FileSnapshotStore durability (C15)",
+    "assumptions": [D3_NOTE],
+    "harnesses": [H_COMPACT, H_REMOVEOLD, H_INSTALL, H_INSTALL_F],
+}
+CHECKS["C12"] = {
+    "only": ["C12."],
+    "explanation": "C12 (catch-up half, step form): the back-track rule of replicateTo strictly decreases nextIndex (>=1), success advances it to the last entry sent +1, failures are counted and back-off is bounded without overflow; after installSnapshot the follower state must let the next AppendEntries succeed (no stale tail) - split by the known finding D3.",
+    "outside": "election liveness within a bounded number of timeouts (randomised timers; not decided); multi-RPC catch-up session",
+    "assumptions": [D3_NOTE],
+    "harnesses": [H_REPL, H_BACKOFF, H_INSTALL],
+}
+CHECKS["C13"] = {
+    "only": ["C13."],
+    "explanation": "C13: checkLeaderLease steps down iff fewer than a quorum of voters (self included if a voter) were contacted within the lease; non-voters are irrelevant; maxDiff is the largest contacted-voter age; the next check is due no later than max(lastContact_p+lease, now+10ms) for every counted voter p (inductive step of the 'within lease+10ms+slack' bound).",
+    "outside": "real timer latency and goroutine scheduling delay (symbolic slack); leases below 10ms give lease+10ms rather than 2*lease",
+    "assumptions": ["last-contact instants lie in the past of the check instant; time.Now is a symbolic monotone clock"],
+    "harnesses": [H_LEASE],
+}
+
+CHECKS["C18"] = {
+    "only": ["C18."],
+    "explanation": "C18: leader-hint faithfulness as step lemmas: every handler that moves a follower to a new term clears the hint or sets it to the sender of that very AppendEntries/InstallSnapshot; a lease step-down clears it; an election win sets it to self; overrideNotifyBool leaves exactly the latest value in LeaderCh; runLeader sends true then false on NotifyCh.",
+    "outside": "shutdown-race best-effort sends; consumer scheduling; that the sender of an AppendEntries for term T really was leader of T is C01",
+    "assumptions": [],
+    "harnesses": [H_VOTE, H_AE_TERM, H_LEASE, H_CAND, H_INSTALL_F],
+}
+
+H_RESTORE = {"fn": "vh_user_restore", "what": "restoreUserSnapshot on an arbitrary leader with 0-2 in-flight futures, arbitrary snapshot meta, snapshot-store/copy faults, gap-tolerant and monotonic stores; FSM goroutine running",
+             "bounds": "W=2, meta.Index < 2^62", "covers": ["restore.success", "restore.failed", "restore.refused"]}
+H_RESTORE_GATE = {"fn": "vh_restore_gate", "what": "the userRestoreCh case of leaderLoop during a leadership transfer", "bounds": "W=1", "covers": ["restoregate.end"]}
+H_RUNLEADER = {"fn": "vh_run_leader", "what": "a whole runLeader activation: prologue (notify true, no-op), two applies + a verify left pending, step-down by stepDown channel or by a state change on the main thread, epilogue",
+               "bounds": "2 voters, W=3, NotifyCh nil/buffered, LeaderCh empty or holding a stale value", "covers": ["runleader.end"]}
+H_OVERRIDE = {"fn": "vh_override_notify", "what": "overrideNotifyBool on a capacity-1 channel that is empty or holds either value", "bounds": "exhaustive", "covers": ["override.end"]}
+H_SHUTDOWN = {"fn": "vh_shutdown_api", "what": "after Shutdown every public call (Apply, Barrier, VerifyLeader, AddVoter, RemoveServer, Snapshot, Restore, LeadershipTransfer, GetConfiguration, BootstrapCluster) followed by Error(); every outcome of every multi-ready select forked; buffered and unbuffered applyCh",
+              "bounds": "10 API calls x 2 channel shapes, all select outcomes", "allow": ["DEADLOCK"], "covers": ["shutdown.call-returned"]}
+H_FUTURE = {"fn": "vh_future_once", "what": "deferError respond/Error: first response wins, repeats, ShutdownCh resolves", "bounds": "exhaustive", "covers": ["future.end"]}
+
+CHECKS["C20"] = {
+    "only": ["C20."],
+    "explanation": "C20: restoreUserSnapshot step: refused without any effect while a configuration change is uncommitted / version unsupported / (loop case) transfer in progress; otherwise every in-flight future is aborted with ErrAbortedByRestore, the snapshot is created at max(meta.Index,lastIndex)+1 in the current term with the latest configuration, the FSM restores it once, lastLog/lastApplied/lastSnapshot move to that burned index, a monotonic log is emptied; failures before the restore change no position.",
+    "outside": "concurrent Apply goroutines beyond the in-flight list; followers' catch-up after the restore (inherits D3); the trailing no-op of Raft.Restore",
+    "assumptions": ["the model FSM's Restore and the snapshot Open succeed (a failing restore panics by design)"],
+    "harnesses": [H_RESTORE, H_RESTORE_GATE],
+}
+CHECKS["C17"] = {
+    "only": ["C17."],
+    "explanation": "C17 (ownership core): after shutdown every public call followed by Error() returns (a DEADLOCK of the caller is a violation), with every select outcome explored; on step-down runLeader answers every in-flight and verify future; dispatch failures, restores and transfer refusals answer every future they consumed; deferError semantics.",
+    "outside": "'within bounded time while the server runs' (liveness over arbitrary schedules), starvation, interleavings finer than run-until-blocked",
+    "assumptions": [],
+    "harnesses": [H_SHUTDOWN, H_FUTURE, H_RUNLEADER, H_DISPATCH, H_LAPPLY, H_RESTORE],
+}
+CHECKS["C18"]["harnesses"] += [H_RUNLEADER, H_OVERRIDE]
+CHECKS["C08"]["harnesses"] += [H_RUNLEADER]
+CHECKS["C12"]["harnesses"] += [H_RUNLEADER]
+CHECKS["C05"]["harnesses"] += [H_RUNLEADER]
+
+H_NEWRAFT = {"fn": "vh_newraft", "what": "NewRaft on an arbitrary durable image", "bounds_quick": "log window W=2, <=1 configuration entry, <=2 snapshots (each usable or not), plain / commit-tracking store",
+             "bounds_thorough": "W=3", "covers": ["newraft.ok", "newraft.snapshot-restored", "newraft.config-from-log", "newraft.config-from-snapshot", "newraft.replayed-committed", "newraft.no-usable-snapshot"]}
+CHECKS["C10"] = {
+    "only": ["C10."],
+    "explanation": "C10: the real NewRaft is executed on an arbitrary durable image satisfying the durable invariant (log contiguous, reaching down to the newest snapshot): it must return (no panic, no deadlock), resume with the durable term and last log, restore the newest usable snapshot into the FSM once, recover the latest configuration from the log or snapshot, leave the vote record untouched and, with RestoreCommittedLogs, replay exactly snapshot+1..min(staged commit, last) in order.",
+    "outside": "which images a crash can leave (CRASH-CLOSED not built: the durable invariant is assumed); real disk stores; more than 128 batches to replay before runFSM starts (D6, found by the scratch probe, not encoded)",
+    "assumptions": ["durable image: log contiguous; with snapshots the log's first index <= newest snapshot index + 1; without snapshots the log starts at 1; terms <= stable term"],
+    "harnesses": [H_NEWRAFT],
+}
